@@ -38,8 +38,9 @@ TRUSTED = [
     "decided by ALV.C09.callStep from ALV.C09.WKind.caps, and that table is compared with callable() / isinstance(., Iterable) / "
     "isinstance(., Stream) of the real objects on every run (extra_checks window-kind-table-*); trusted: that _build_wobj builds "
     "an object that behaves as described (its __call__ returns the table row, its __iter__ the data)",
-    "window objects whose ITERATION gives things that are not numbers and that are not callable (a list of strings, a dict of "
-    "tuples) are modelled as the error window-items but never drawn (the precise exception depends on the first arithmetic)",
+    "window objects whose ITERATION gives things that are not numbers and that are not callable (a list / tuple / generator / deque of "
+    "parameter tuples) are drawn as wnd of overlap_add.list (ALV.C09.olaOpaque: TypeError at the first arithmetic on an item, none with "
+    "zero blocks and no normalisation); as wnd / ola_wnd of the stft wrapper they are modelled (window-items) but not drawn",
     "the Lean model / spec is a pure function of the request of one call: `ALV.Driver.C09.handle \"hist\"` answers every call "
     "of a history by `handleCall` on that call's own request, so 'the result depends only on the call's own argument values' "
     "holds for the model by construction (nothing to prove); that the REAL code has no state between calls and leaves its "
@@ -58,6 +59,9 @@ ASSUMPTIONS = [
     "size >= 1; the property quantifies over 1 <= hop <= size (hop > size and hop = 0 are modelled and tied, "
     "but the spec is silent there)",
     "normalisation is modelled over an ordered field (int / Fraction / float windows); complex windows are outside",
+    "window items that are not numbers: tied for hop < size or normalisation on or zero blocks; with hop = size, no normalisation and "
+    "at least one block no addition touches an item and int * tuple is a tuple, so the outcome depends on the Python TYPE of the samples "
+    "(ints: tuples come out, Fractions / floats: TypeError) -- outside the model, not drawn",
     "ceil(size / hop) is computed by the code in floating point; modelled as exact integer ceiling",
 ]
 
@@ -205,9 +209,14 @@ def _real_window(name, n):
     return [enc(x) for x in f(n)]
 
 
-def _mk_wobj(rng, wk, size, hop, num, wsize=None, ret_bad=None):
-    """a window object of kind `wk` for blocks of `size` items"""
+WK_OPAQUE = ["list", "tuple", "generator", "list_iterator", "deque", "user_iter_only"]
+
+
+def _mk_wobj(rng, wk, size, hop, num, wsize=None, ret_bad=None, opaque=False):
+    """a window object of kind `wk` for blocks of `size` items; `opaque`: its items are parameter tuples, not numbers"""
     wsize = size if wsize is None else wsize
+    if opaque and wk in WK_OPAQUE:
+        return {"kind": "obj", "wk": wk, "variant": "user", "ret": "list", "call": None, "iter": {"r": "opaque", "n": wsize}}
     d = wsize - size
     sizes = sorted({size, hop, max(size - 1, 1), size + 1} - {0})
     w = {"kind": "obj", "wk": wk, "variant": "user", "ret": "list", "call": None, "iter": None}
@@ -409,12 +418,12 @@ def _spell(v):
 
 
 def _mk_ola(rng, size, hop, m, normalize, wkind, num, size_given=True, hop_given=True, route="list",
-            wsize=None, blens=None, ret_bad=None):
+            wsize=None, blens=None, ret_bad=None, opaque=False):
     blens = blens if blens is not None else [size] * m
     blks = [[_rand_val(rng, num) for _ in range(n)] for n in blens]
     wsize = size if wsize is None else wsize
     if wkind.startswith("obj:"):
-        wnd = _mk_wobj(rng, wkind[4:], size, hop, num, wsize=wsize, ret_bad=ret_bad)
+        wnd = _mk_wobj(rng, wkind[4:], size, hop, num, wsize=wsize, ret_bad=ret_bad, opaque=opaque)
     elif wkind == "none":
         wnd = None
     elif wkind in ("callable", "callable_gen"):
@@ -538,6 +547,22 @@ def generate(rng, tier, scale=1):
             cases.append(_mk_ola(rng, size, hop, m, rng.random() < 0.5, "obj:" + wk, num, size_given=size_given,
                                  hop_given=(hop != size) or rng.random() < 0.5, route=rng.choice(ROUTES + ["gens"]),
                                  wsize=wsize, ret_bad=ret_bad))
+    # --- window items that are not numbers (tuples of parameters): nothing fails before the first arithmetic ----
+    for i in range((90 if quick else 1500) * scale):
+        size = rng.randint(1, 6)
+        hop = rng.choice([size, max(1, size // 2), rng.randint(1, size)])
+        m = rng.choice([0, 0, 1, 2, 3])
+        wsize = size if rng.random() < 0.8 else rng.choice([0, max(1, size - 1), size + 1])
+        if i % 2 and m >= 1 and hop == size:
+            # hop = size without normalisation: no addition ever touches an item and int * tuple is a tuple, so whether
+            # anything is raised depends on the TYPE of the samples -- outside the model (ASSUMPTIONS)
+            if size >= 2:
+                hop = rng.randint(1, size - 1)
+            else:
+                m = 0
+        cases.append(_mk_ola(rng, size, hop, m, i % 2 == 0, "obj:" + rng.choice(WK_OPAQUE), rng.choice(["int", "frac", "float"]),
+                             size_given=rng.random() < 0.6 or m == 0, hop_given=(hop != size) or rng.random() < 0.5,
+                             route=rng.choice(ROUTES), wsize=wsize, opaque=True))
     # --- the other strategies: `overlap_add(…)` is `overlap_add.numpy(…)` (numpy first, absent here) ----
     for _ in range((12 if quick else 60) * scale):
         size = rng.randint(1, 5)
@@ -866,6 +891,9 @@ def _err_obs(e):
         tag = "zero-division"
     elif "max()" in msg:
         tag = "max-empty"
+    elif kind == "TypeError" and ("bad operand type for abs()" in msg or "unsupported operand type(s) for +" in msg
+                                  or "can't multiply sequence by non-int" in msg):
+        tag = "window-items"           # the first arithmetic on a window item that is not a number
     elif "generator raised StopIteration" in msg:
         tag = "generator-raised-StopIteration"
     elif "numpy" in msg and isinstance(e, ImportError):
@@ -1389,6 +1417,10 @@ def tally(eng, c, io):
         if w.get("call"):
             rs = sorted({r["r"] for _, r in w["call"]["table"]})
             eng.count("window_object_call_returns", "+".join(rs) + " as " + w.get("ret", "list"))
+        if (w.get("iter") or {}).get("r") == "opaque" and not w.get("call"):
+            eng.count("window_items_not_numbers", "%s blocks, normalize=%s, %s -> %s" % (
+                "0" if m == 0 else "1+", c["normalize"], "n=size" if w["iter"]["n"] == size else "n!=size",
+                (io.get("err") or {}).get("tag", "no error")))
         if w.get("iter") and w.get("call"):
             eng.count("window_object_callable_and_iterable", "%s: iteration gives %s" % (w["wk"], w["iter"]["r"]))
     eng.count("ola_call_shape", c.get("argstyle", "kw"))
